@@ -279,7 +279,8 @@ namespace nmtools::index
             for (nm_size_t i=0; i<(nm_size_t)n_planes; i++) {
                 if constexpr (meta::is_index_array_v<dilation_t>) {
                     // assume same length as n_planes
-                    at(result,i) = at(dilation,i) - 1;
+                    // spacing i belongs to window axis -(i+1) (see conv_window_axis), like conv_kernel_size
+                    at(result,i) = at(dilation,-(nm_index_t)(i+1)) - 1;
                 } else {
                     at(result,i) = dilation - 1;
                 }
